@@ -25,8 +25,16 @@
 (*   req   keys the property demands in the read set (semantic account,    *)
 (*         see ReqScan): never compared for equality with the recorded     *)
 (*         read set, only for inclusion.                                   *)
-(*   pool, un, uout   UTXO sandbox: utxos (each worth UAmt) the reader can *)
-(*         hand out, number consumed, outputs produced ([to, amt]).        *)
+(*   pool, uin, rin, uout   UTXO sandbox (state/utxo/utxo_sandbox.go):     *)
+(*         pool  what the senders "a" and "b" hold when the execution      *)
+(*               starts: per sender a sequence of utxo amounts (sender "z" *)
+(*               holds nothing).  A utxo is [own, i, amt].                 *)
+(*         uin   the utxos consumed by the transfers of this run so far,   *)
+(*               in order: the recorded utxo inputs (UTXORWSet().Rset)     *)
+(*         rin   "rs" mode only: the recorded inputs of the first run the  *)
+(*               replay reader (sandbox/utxo.go UTXOReader) hands out,     *)
+(*               cursor = Len(uin)                                         *)
+(*         uout  outputs produced ([to, amt]): payment, then change        *)
 (*                                                                         *)
 (* Keys are pairs <<bucket, name>>, bucket 0 = the transient bucket.       *)
 (* A scan Select(b, lo, hi, lim) reads names lo <= n < hi of bucket b and  *)
@@ -42,7 +50,7 @@ EXTENDS Integers, Sequences, FiniteSets, TLC, SequencesExt
 CONSTANTS N1, N2, NT,     \* names 1..N1 in bucket 1, 1..N2 in bucket 2, 1..NT in the transient bucket
           Vals,           \* values a program writes
           Limits,         \* early-stop limits of scans
-          NU,             \* utxos of the paying account (0: no Transfer)
+          NU,             \* utxo scenario (0: no Transfer; else the set of pools Pools(NU) and amounts 0..MaxAmt(NU))
           MaxOps,         \* operations per execution
           KeepHist,       \* TRUE: hist is the whole history; FALSE: only the last event (model checking)
           EdgeBounds,     \* also generate empty / inverted / open-ended ranges
@@ -51,11 +59,11 @@ CONSTANTS N1, N2, NT,     \* names 1..N1 in bucket 1, 1..N2 in bucket 2, 1..NT i
           KF_ScanInvertedRangePanics,   \* scan with start > end over the real XModel: nil iterator dereferenced
           KF_ScanOpenEndSkipsBacking    \* scan with empty end key: the real XModel iterates nothing, the caches iterate to the bucket end
 
-VARIABLES mode, bk, inp, out, req, pool, un, uout, nops, hist
-vars == <<mode, bk, inp, out, req, pool, un, uout, nops, hist>>
+VARIABLES mode, bk, inp, out, req, pool, uin, rin, uout, nops, hist
+vars == <<mode, bk, inp, out, req, pool, uin, rin, uout, nops, hist>>
 
 TB == 0
-UAmt == 2
+NoPool == [a |-> <<>>, b |-> <<>>]      \* nobody holds a utxo
 \* written as explicit enumerations: TLC then keeps every set derived from Keys as an explicit (eager) set value;
 \* lazily evaluated set values inside states are not safe with TLC's concurrent disk queue
 Keys == {<<1, n>> : n \in 1..N1} \cup {<<2, n>> : n \in 1..N2} \cup {<<TB, n>> : n \in 1..NT}
@@ -134,9 +142,9 @@ ReqScan(bx, m, o, full, b, lo, hi, lim) ==
 (* ------------------------------------------------------------------ state ---------- *)
 Idle == [k \in Keys |-> "never"]
 Init == /\ mode = "idle" /\ bk = Idle /\ inp = {} /\ out = [k \in Keys |-> NoWrite] /\ req = {}
-        /\ pool = 0 /\ un = 0 /\ uout = <<>> /\ nops = 0 /\ hist = <<>>
+        /\ pool = NoPool /\ uin = <<>> /\ rin = <<>> /\ uout = <<>> /\ nops = 0 /\ hist = <<>>
 Reset == /\ mode' = "idle" /\ bk' = Idle /\ inp' = {} /\ out' = [k \in Keys |-> NoWrite] /\ req' = {}
-         /\ pool' = 0 /\ un' = 0 /\ uout' = <<>> /\ nops' = 0 /\ hist' = <<>>
+         /\ pool' = NoPool /\ uin' = <<>> /\ rin' = <<>> /\ uout' = <<>> /\ nops' = 0 /\ hist' = <<>>
 
 Log(e) == /\ hist' = IF KeepHist THEN Append(hist, e) ELSE <<e>>
           /\ nops' = nops + 1
@@ -147,29 +155,29 @@ BkSeq(f) == LET s == SortKeys(Keys) IN [j \in 1..Len(s) |-> [b |-> s[j][1], n |-
 
 XmStates == [Keys -> {"never", "live", "del"}]
 (* A new execution over a real XModel in state f (transient keys are never persisted). *)
-Start(f, nu) ==
+Start(f, p) ==
   /\ mode = "idle" /\ f \in XmStates /\ \A k \in Keys : k[1] = TB => f[k] = "never"
-  /\ mode' = "xm" /\ bk' = f /\ pool' = nu
-  /\ UNCHANGED <<inp, out, req, un, uout>>
-  /\ hist' = <<[op |-> "init", bk |-> BkSeq(f), nu |-> nu]>> /\ nops' = 0
+  /\ mode' = "xm" /\ bk' = f /\ pool' = p
+  /\ UNCHANGED <<inp, out, req, uin, rin, uout>>
+  /\ hist' = <<[op |-> "init", bk |-> BkSeq(f), pool |-> p]>> /\ nops' = 0
 
 (* The verification-time run: the same calls over readers built from the recorded read set rs      *)
 (* (XMReaderFromRWSet) and the recorded utxo inputs (NewUTXOReaderFromInput) alone.                 *)
-Replay(rs, nin) ==
+Replay(rs, ri) ==
   /\ mode = "xm"
-  /\ mode' = "rs" /\ pool' = nin
+  /\ mode' = "rs" /\ rin' = ri /\ UNCHANGED pool
   /\ bk' = [k \in Keys |->
              IF \E i \in 1..Len(rs) : rs[i].b = k[1] /\ rs[i].n = k[2]
              THEN LET v == rs[CHOOSE i \in 1..Len(rs) : rs[i].b = k[1] /\ rs[i].n = k[2]].v
                   IN IF v = OldVal THEN "live" ELSE IF v = DelMark THEN "del" ELSE "emp"
              ELSE "nf"]
-  /\ inp' = {} /\ out' = [k \in Keys |-> NoWrite] /\ req' = {} /\ un' = 0 /\ uout' = <<>>
+  /\ inp' = {} /\ out' = [k \in Keys |-> NoWrite] /\ req' = {} /\ uin' = <<>> /\ uout' = <<>>
   /\ hist' = <<[op |-> "replay"]>> /\ nops' = 0
 
 (* RWSet() / UTXORWSet() after Flush(): a pure observation *)
 Finish ==
   /\ mode \in {"xm", "rs"}
-  /\ UNCHANGED <<mode, bk, inp, out, req, pool, un, uout, nops>>
+  /\ UNCHANGED <<mode, bk, inp, out, req, pool, uin, rin, uout, nops>>
   /\ hist' = IF KeepHist THEN Append(hist, [op |-> "rwset"]) ELSE <<[op |-> "rwset"]>>
 
 Running == mode \in {"xm", "rs"} /\ nops < MaxOps
@@ -181,7 +189,7 @@ Get(k) ==
   /\ Running /\ k \in Keys
   /\ inp' = IF Reads(k) THEN inp \cup {k} ELSE inp
   /\ req' = IF Reads(k) /\ k[1] # TB THEN req \cup {k} ELSE req
-  /\ UNCHANGED <<mode, bk, out, pool, un, uout>>
+  /\ UNCHANGED <<mode, bk, out, pool, uin, rin, uout>>
   /\ Log([op |-> "get", b |-> k[1], n |-> k[2], res |-> SemVal(bk, out, k), items |-> NoItems, dv |-> NoDev])
 
 (* Put forces a read of the key first (not for the transient bucket); Del = Put of the delete marker *)
@@ -190,7 +198,7 @@ Write(k, v, e) ==
   /\ out' = [out EXCEPT ![k] = v]
   /\ inp' = IF k[1] # TB /\ Reads(k) THEN inp \cup {k} ELSE inp
   /\ req' = IF k[1] # TB /\ Reads(k) THEN req \cup {k} ELSE req
-  /\ UNCHANGED <<mode, bk, pool, un, uout>>
+  /\ UNCHANGED <<mode, bk, pool, uin, rin, uout>>
   /\ Log(e)
 Put(k, v) == v \in Vals /\ Write(k, v, [op |-> "put", b |-> k[1], n |-> k[2], v |-> v, res |-> "ok", items |-> NoItems, dv |-> NoDev])
 Del(k) == Write(k, DelMark, [op |-> "del", b |-> k[1], n |-> k[2], res |-> "ok", items |-> NoItems, dv |-> NoDev])
@@ -202,7 +210,7 @@ Select(b, lo, hi, lim, over(_)) ==
   /\ LET ev(r, it, d, nd) == [op |-> "select", b |-> b, lo |-> lo, hi |-> hi, lim |-> lim, res |-> r, items |-> it,
                               dv |-> d, need |-> nd] IN
      IF hi # 0 /\ lo > hi THEN      \* inverted range: the sandbox's own ordered maps refuse it
-        /\ UNCHANGED <<mode, bk, inp, out, req, pool, un, uout>>
+        /\ UNCHANGED <<mode, bk, inp, out, req, pool, uin, rin, uout>>
         /\ IF mode = "xm" /\ KF_ScanInvertedRangePanics
            THEN Log(ev("panic", NoItems, {"KF_ScanInvertedRangePanics"}, {}))
            ELSE Log(ev("err", NoItems, NoDev, {}))
@@ -211,21 +219,69 @@ Select(b, lo, hi, lim, over(_)) ==
             need == ReqScan(bk, mode, out, full, b, lo, hi, lim)
         IN /\ inp' \in {inp \cup need \cup x : x \in over(need)}
            /\ req' = req \cup need
-           /\ UNCHANGED <<mode, bk, out, pool, un, uout>>
+           /\ UNCHANGED <<mode, bk, out, pool, uin, rin, uout>>
            /\ Log(ev("ok", Items(Take(full, lim)), ScanDev(bk, mode, inp, out, b, lo, hi, lim), need))
 
-(* utxo_sandbox.go Transfer: whole utxos are selected until the amount is covered, the rest is change *)
-Transfer(amt) ==
-  /\ Running /\ amt \in 0..(UAmt + 1)
-  /\ LET need == (amt + UAmt - 1) \div UAmt
-         ev(r) == [op |-> "transfer", amt |-> amt, res |-> r, items |-> NoItems, dv |-> NoDev]
-     IN IF amt = 0 \/ un + need > pool
-        THEN UNCHANGED <<mode, bk, inp, out, req, pool, un, uout>> /\ Log(ev("err"))
-        ELSE /\ un' = un + need
-             /\ uout' = uout \o <<[to |-> "x", amt |-> amt]>> \o
-                        (IF need * UAmt > amt THEN <<[to |-> "a", amt |-> need * UAmt - amt]>> ELSE <<>>)
-             /\ UNCHANGED <<mode, bk, inp, out, req, pool>>
-             /\ Log(ev("ok"))
+(* ------------------------------------------------------------------ utxo sandbox -- *)
+(* utxo_sandbox.go Transfer(from, to, amt): a zero amount is refused before any selection; else the utxo reader      *)
+(* selects whole utxos of `from` until the amount is covered (SelectUtxo), the inputs are recorded, the payment and   *)
+(* the change (back to `from`) are the outputs.  A failed transfer leaves no trace (the contract may go on).          *)
+(*   first run ("xm"): the node's reader hands out unspent, not yet selected utxos of the sender in an order of its    *)
+(*     own (a Go map and a wrapping storage iterator) and stops as soon as the amount is covered: `pick(free, amt)`    *)
+(*     is the set of selections the caller admits; it fails iff all the sender's free utxos together do not cover.    *)
+(*   replay ("rs"): sandbox/utxo.go UTXOReader walks the recorded inputs from its cursor; an input of another sender  *)
+(*     met before the amount is covered, or running out of inputs, is an error that does NOT move the cursor.         *)
+Froms == {"a", "b", "z"}      \* "z": a sender that holds nothing
+Tos   == {"x", "a"}           \* a third party, or an address that is also a sender (payment to oneself included)
+Held(p, f) == IF f = "a" THEN p.a ELSE IF f = "b" THEN p.b ELSE <<>>
+RECURSIVE SumAmt(_)
+SumAmt(s) == IF s = <<>> THEN 0 ELSE s[1].amt + SumAmt(Tail(s))
+AllU(p, f) == [i \in 1..Len(Held(p, f)) |-> [own |-> f, i |-> i, amt |-> Held(p, f)[i]]]
+FreeSeq(p, ui, f) == SelectSeq(AllU(p, f), LAMBDA u : \A j \in 1..Len(ui) : ui[j] # u)
+SeqRange(s) == {s[j] : j \in 1..Len(s)}
+Injective(s) == \A i, j \in 1..Len(s) : s[i] = s[j] => i = j
+(* the selection stops as soon as the amount is covered *)
+Greedy(sel, amt) == sel # <<>> /\ SumAmt(sel) >= amt /\ SumAmt(SubSeq(sel, 1, Len(sel) - 1)) < amt
+InOrderSel(free, amt) ==      \* {the shortest covering prefix}: what a reader iterating in index order takes
+  {SubSeq(free, 1, n) : n \in {m \in 1..Len(free) : Greedy(SubSeq(free, 1, m), amt)}}
+AnyOrderSel(free, amt) ==     \* every order a reader may iterate in
+  {s \in UNION {[1..n -> SeqRange(free)] : n \in 1..Len(free)} : Injective(s) /\ Greedy(s, amt)}
+(* what the first run may record for a successful transfer: distinct free utxos of the sender covering the amount *)
+CoveringSel(p, ui, f, amt, sel) == /\ Injective(sel) /\ SeqRange(sel) \subseteq SeqRange(FreeSeq(p, ui, f))
+                                   /\ SumAmt(sel) >= amt
+(* sandbox/utxo.go SelectUtxo over the recorded inputs ri with the cursor at c; <<>> = error *)
+RsSel(ri, c, f, amt) ==
+  LET rest == SubSeq(ri, c + 1, Len(ri))
+      ns   == {n \in 1..Len(rest) : SumAmt(SubSeq(rest, 1, n)) >= amt}
+  IN IF ns = {} THEN <<>>
+     ELSE LET n == CHOOSE m \in ns : \A k \in ns : m <= k
+          IN IF \A j \in 1..n : rest[j].own = f THEN SubSeq(rest, 1, n) ELSE <<>>
+Outs(f, to, amt, sel) == <<[to |-> to, amt |-> amt]>> \o
+                         (IF SumAmt(sel) > amt THEN <<[to |-> f, amt |-> SumAmt(sel) - amt]>> ELSE <<>>)
+
+(* zeroOk: R3 - the property does not say whether a zero amount is refused (what the code does) or is a payment of     *)
+(* nothing that takes no input; only that the replay does the same.                                                   *)
+Transfer(f, to, amt, pick(_, _), zeroOk) ==
+  /\ Running /\ amt >= 0
+  /\ LET ev(r, sel, o) == [op |-> "transfer", from |-> f, to |-> to, amt |-> amt, res |-> r, items |-> NoItems, dv |-> NoDev,
+                            sel |-> sel, outs |-> o]
+         fail == UNCHANGED <<mode, bk, inp, out, req, pool, uin, rin, uout>> /\ Log(ev("err", <<>>, <<>>))
+         ok(sel) == /\ uin' = uin \o sel
+                    /\ uout' = uout \o Outs(f, to, amt, sel)
+                    /\ UNCHANGED <<mode, bk, inp, out, req, pool, rin>>
+                    /\ Log(ev("ok", sel, Outs(f, to, amt, sel)))
+     IN IF amt = 0 THEN (IF zeroOk THEN ok(<<>>) ELSE fail)
+        ELSE IF mode = "rs"
+             THEN LET sel == RsSel(rin, Len(uin), f, amt) IN IF sel = <<>> THEN fail ELSE ok(sel)
+             ELSE LET free == FreeSeq(pool, uin, f) IN
+                  IF SumAmt(free) < amt THEN fail ELSE \E sel \in pick(free, amt) : ok(sel)
+
+(* utxo scenarios: what "a" and "b" hold (the cfg cannot hold sequences) and the amounts tried *)
+Pools(nu) == IF nu = 0 THEN {NoPool}
+             ELSE IF nu = 1 THEN {[a |-> <<1, 2>>, b |-> <<2>>]}
+             ELSE IF nu = 2 THEN {[a |-> <<2, 2>>, b |-> <<>>], [a |-> <<1, 2>>, b |-> <<2>>], [a |-> <<3, 1>>, b |-> <<1, 1>>]}
+             ELSE {[a |-> <<2, 2, 2, 2>>, b |-> <<1, 3>>], [a |-> <<1, 2, 3>>, b |-> <<2, 2, 1>>], [a |-> <<4, 1, 1>>, b |-> <<5>>]}
+MaxAmt(nu) == IF nu = 0 THEN 0 ELSE IF nu = 1 THEN 4 ELSE IF nu = 2 THEN 5 ELSE 7
 
 (* ------------------------------------------------------------------ programs ------- *)
 ProperRanges(b) == {<<lo, hi>> \in (1..NamesOf(b)) \X (2..(NamesOf(b) + 1)) : lo < hi}
@@ -235,8 +291,8 @@ Ranges(b) == ProperRanges(b) \cup (IF EdgeBounds THEN EdgeRanges(b) ELSE {})
 Step ==
   \/ \E k \in Keys : Get(k) \/ Del(k) \/ \E v \in Vals : Put(k, v)
   \/ \E b \in {TB, 1, 2} : \E r \in Ranges(b) : \E lim \in Limits : Select(b, r[1], r[2], lim, LAMBDA nd : {{}})
-  \/ NU > 0 /\ \E amt \in 1..(UAmt + 1) : Transfer(amt)     \* a zero amount is refused by the code; no property speaks about it
-Next == (mode = "idle" /\ \E f \in XmStates : Start(f, NU)) \/ Step
+  \/ NU > 0 /\ \E f \in Froms : \E to \in Tos : \E amt \in 0..MaxAmt(NU) : Transfer(f, to, amt, InOrderSel, FALSE)
+Next == (mode = "idle" /\ \E f \in XmStates : \E p \in Pools(NU) : Start(f, p)) \/ Step
 Spec == Init /\ [][Next]_vars
 
 (* ------------------------------------------------------------------ observables ---- *)
@@ -270,7 +326,10 @@ TypeOK ==
   /\ bk \in [Keys -> {"never", "live", "del", "emp", "nf"}]
   /\ inp \subseteq Keys /\ req \subseteq Keys
   /\ out \in [Keys -> Vals \cup {NoWrite, DelMark}]
-  /\ pool \in 0..NU /\ un \in 0..pool
+  /\ pool.a \in Seq(Nat) /\ pool.b \in Seq(Nat)
+  /\ \A j \in 1..Len(uin) : uin[j].own \in {"a", "b"} /\ uin[j].i \in 1..Len(Held(pool, uin[j].own))
+  /\ Injective(uin)
+  /\ mode = "rs" => (Len(uin) <= Len(rin) /\ uin = SubSeq(rin, 1, Len(uin)))
 (* the modelled cache discipline yields a sound read set: demanded keys and written keys are cached *)
 ReadSetSound ==
   /\ req \subseteq inp
@@ -291,8 +350,5 @@ ScanExact ==
        /\ \A j \in 1..(Len(LastEv.items) - 1) : LastEv.items[j].n < LastEv.items[j + 1].n]_vars
 ScanRefusesInverted ==
   [][(Len(hist') > 0 /\ LastEv.op = "select" /\ LastEv.hi # 0 /\ LastEv.lo > LastEv.hi) => LastEv.res = "err"]_vars
-UtxoBalanced ==       \* what the transfers consumed is what they paid out
-  LET RECURSIVE Sum(_)
-      Sum(s) == IF s = <<>> THEN 0 ELSE s[1].amt + Sum(Tail(s))
-  IN Sum(uout) = un * UAmt
+UtxoBalanced == SumAmt(uout) = SumAmt(uin)      \* what the transfers consumed is what they paid out
 =============================================================================
